@@ -73,6 +73,20 @@ func (e *env) options(v ValOpts, auth openapi3filter.AuthenticationFunc) *openap
 
 func accepts(mode string) bool { return !strings.HasSuffix(mode, "fail") }
 
+// acceptsScoped: mode "scoped" is a callback whose verdict depends on the scopes
+// it is asked about (the caller holds "read" only).
+func acceptsScoped(mode string, scopes []string) bool {
+	if mode == "scoped" {
+		for _, sc := range scopes {
+			if sc != "read" {
+				return false
+			}
+		}
+		return true
+	}
+	return accepts(mode)
+}
+
 func baseRequest(q ReqSpec, method string) *http.Request {
 	u := "http://sim.test/thing"
 	if q.Query != "" {
@@ -248,7 +262,7 @@ func (e *env) request(world *World, docBytes []byte, q ReqSpec, again bool) (han
 	var nCalls []authCall
 	nAuth := func(_ context.Context, in *openapi3filter.AuthenticationInput) error {
 		nCalls = append(nCalls, authCall{in.SecuritySchemeName, strings.Join(in.Scopes, ",")})
-		if accepts(s.Auth[in.SecuritySchemeName]) {
+		if acceptsScoped(s.Auth[in.SecuritySchemeName], in.Scopes) {
 			return nil
 		}
 		return errors.New("rejected")
@@ -296,6 +310,11 @@ func (e *env) request(world *World, docBytes []byte, q ReqSpec, again bool) (han
 		if q.CLUnknown {
 			req.ContentLength = -1
 		}
+		if q.CLZero {
+			req.ContentLength = 0
+		}
+		origCL := req.ContentLength
+		_ = origCL
 		switch q.GetBody {
 		case "ok":
 			body := orig
@@ -331,7 +350,7 @@ func (e *env) request(world *World, docBytes []byte, q ReqSpec, again bool) (han
 		mode := s.Auth[in.SecuritySchemeName]
 		calls = append(calls, authCall{in.SecuritySchemeName, strings.Join(in.Scopes, ",")})
 		r := in.RequestValidationInput.Request
-		outcome := accepts(mode)
+		outcome := acceptsScoped(mode, in.Scopes)
 		readAll := func() []byte {
 			if r.Body == nil {
 				return nil
@@ -416,7 +435,7 @@ func (e *env) request(world *World, docBytes []byte, q ReqSpec, again bool) (han
 			violate("C07", "failing-parts", "failing-parts", fmt.Sprintf("failing parts %v; neutral run %v (multi-error=%v, auth=%v)", got, want, s.Vals[0].MultiError, s.Auth))
 		}
 		// the security part against the reference model of the requirement semantics
-		wantSecOK := SecurityModel(s.Doc, func(name string) bool { return accepts(s.Auth[name]) })
+		wantSecOK := SecurityModel(s.Doc, func(name string, scopes []string) bool { return acceptsScoped(s.Auth[name], scopes) })
 		gotSecOK := true
 		for _, p := range parts(verdicts[0]) {
 			if p == "security" || p == "request" {
@@ -530,7 +549,8 @@ func (e *env) request(world *World, docBytes []byte, q ReqSpec, again bool) (han
 				}
 			}
 			// ContentLength and GetBody bookkeeping
-			if req.ContentLength != -1 && req.ContentLength != int64(len(final)) && !(req.Body == nil || q.BodyMode == "nil" || q.BodyMode == "nobody") {
+			untouchedZero := q.CLZero && req.ContentLength == 0 // "unknown" left as received
+			if req.ContentLength != -1 && !untouchedZero && req.ContentLength != int64(len(final)) && !(req.Body == nil || q.BodyMode == "nil" || q.BodyMode == "nobody") {
 				violate("C13", "R1-content-length", bodySig("content-length"), fmt.Sprintf("ContentLength=%d but %d bytes are readable", req.ContentLength, len(final)))
 			}
 			if req.GetBody != nil {
@@ -709,7 +729,7 @@ func (e *env) checkIdempotent(docBytes []byte, q ReqSpec, after snapshot, final 
 		return
 	}
 	auth := func(_ context.Context, in *openapi3filter.AuthenticationInput) error {
-		if accepts(e.s.Auth[in.SecuritySchemeName]) {
+		if acceptsScoped(e.s.Auth[in.SecuritySchemeName], in.Scopes) {
 			return nil
 		}
 		return errors.New("rejected")
